@@ -3,13 +3,17 @@ import RbV.Ref.Gotoh
 import RbV.Basic.AlignCodec
 import RbV.Lemmas.AlignRev
 import RbV.Model.PairwiseCustom
+import RbV.Thm.GenLimits
+import RbV.Thm.GenTbCodes
 /-!
 # C01 — pairwise alignment is optimal and its reported path achieves the reported score
 
 Property theorems only (definitions: `RbV/Spec/Align.lean`; reference and lemmas: `RbV/Ref/Gotoh.lean`).
 All statements hold for every pair of sequences (including empty ones), every substitution function
 `w : Nat → Nat → Int`, all integer gap penalties (in particular all `go, ge ≤ 0`) and all clip penalties
-(`MIN_SCORE` is just the integer −858 993 459, exactly as in the code).
+(`MIN_SCORE` is just an integer: `Align.minScore` is *defined* as the constant extracted from the source text of
+`pairwise/mod.rs` on every run, `RbV/Gen/Limits.lean`; −858 993 459 in the pinned tree.  No statement about
+`score`/`opt`/`accept` depends on its value; what the value itself must satisfy is the last section.)
 -/
 namespace RbV.Thm.C01
 open RbV.Align
@@ -95,6 +99,79 @@ theorem score_splits (sc : Sc) (ops1 : List Op) (st : St) (x1 y1 : List Nat) (v1
     (h : score sc st x1 y1 ops1 = some v1) (x2 y2 : List Nat) (ops2 : List Op) :
     score sc st (x1 ++ x2) (y1 ++ y2) (ops1 ++ ops2) = (score sc (lastSt st ops1) x2 y2 ops2).map (· + v1) :=
   score_append sc ops1 st x1 y1 v1 h x2 y2 ops2
+
+/-! ### Source-extracted obligations (DESIGN §8): `MIN_SCORE` and the traceback-cell constants of `pairwise/mod.rs`
+
+`RbV/Gen/Limits.lean` and `RbV/Gen/TbCodes.lean` are regenerated from the source text of the tree under test on every
+`./check C01` (tools/gen_tables.py) before `lake build`; the statements below are re-proved over whatever was
+extracted (proofs: `RbV/Thm/GenLimits.lean`, `RbV/Thm/GenTbCodes.lean`, `RbV/Model/TbCell.lean`).  A renamed / retyped /
+non-literal constant makes the extraction fail; a changed value either still satisfies them (the model follows) or one
+of them fails — `docs/notes/GEN.md` has the table. -/
+
+/-- the specification's `minScore` (clip penalty "minus infinity", used by the driver for the standard modes and by
+the mirror model for `MIN`) **is** the constant extracted from `pub const MIN_SCORE: i32` of `pairwise/mod.rs` — no
+literal copy; the driver's `const` case compares it with the run-time value of the compiled constant -/
+theorem min_score_is_source_constant : minScore = RbV.Gen.Limits.minScorePairwise := rfl
+
+/-- the promise of the constant's doc comment ("adding two of them does not overflow"): `2·MIN_SCORE ≥ −2³¹` -/
+theorem two_min_scores_no_i32_overflow : -(2 ^ 31 : Int) ≤ minScore + minScore :=
+  GenLimits.two_min_scores_no_i32_overflow.2.1
+
+/-- the sentinel is a negative `i32` -/
+theorem min_score_range : -(2 ^ 31 : Int) ≤ minScore ∧ minScore < 0 := GenLimits.min_score_range
+
+/-- head-room: two sentinels plus any further penalty `p` with `−2³¹ − 2·MIN_SCORE ≤ p ≤ 0` stay inside `i32`
+(what "reasonable scoring parameters" has to mean for `MIN_SCORE + MIN_SCORE + gap` in the recurrences) -/
+theorem min_score_headroom (p : Int) (hp : -(2 ^ 31 : Int) - (minScore + minScore) ≤ p) (hp0 : p ≤ 0) :
+    -(2 ^ 31 : Int) ≤ minScore + minScore + p ∧ minScore + minScore + p < 2 ^ 31 :=
+  GenLimits.min_score_headroom p hp hp0
+
+/-- the nine traceback move codes are pairwise distinct, pass the `assert!(value <= TB_MAX)` of `set_bits`, and
+`TB_MAX` fits the 4-bit field -/
+theorem tb_codes_wellformed :
+    RbV.Gen.TbCodes.codes.Nodup ∧ (∀ c ∈ RbV.Gen.TbCodes.codes, c ≤ RbV.Gen.TbCodes.tbMax) ∧
+      RbV.Gen.TbCodes.tbMax ≤ RbV.Gen.TbCodes.fieldMask ∧ RbV.Gen.TbCodes.fieldMask + 1 = 2 ^ 4 :=
+  ⟨GenTbCodes.tb_codes_distinct, GenTbCodes.tb_codes_le_max.1, GenTbCodes.tb_max_fits_field.1,
+    GenTbCodes.tb_max_fits_field.2.1⟩
+
+/-- the I, D and S fields of a `TracebackCell` are disjoint 4-bit ranges inside the 16-bit cell -/
+theorem tb_fields_disjoint :
+    RbV.Gen.TbCodes.positions.Pairwise (fun a b => a + 4 ≤ b ∨ b + 4 ≤ a) ∧
+      (∀ p ∈ RbV.Gen.TbCodes.positions, p + 4 ≤ RbV.Gen.TbCodes.cellBits) :=
+  GenTbCodes.tb_fields_disjoint
+
+/-- mirror model of `set_bits`/`get_bits` (`RbV/Model/TbCell.lean`) over the extracted mask and positions, for
+**every** cell content: a field reads back what was written … -/
+theorem tb_get_after_set (v value p : Nat) (hval : value ≤ RbV.Gen.TbCodes.tbMax) (hp : p ∈ RbV.Gen.TbCodes.positions) :
+    RbV.TbCell.getBits (RbV.TbCell.setBits v p value) p = value :=
+  GenTbCodes.tb_get_after_set v value p hval hp
+
+/-- … writing one field leaves the other two untouched (the three matrices share one cell) … -/
+theorem tb_set_preserves_other_fields (v value p q : Nat) (hval : value ≤ RbV.Gen.TbCodes.tbMax)
+    (hp : p ∈ RbV.Gen.TbCodes.positions) (hq : q ∈ RbV.Gen.TbCodes.positions) (hpq : p ≠ q) :
+    RbV.TbCell.getBits (RbV.TbCell.setBits v p value) q = RbV.TbCell.getBits v q :=
+  GenTbCodes.tb_set_preserves_other_fields v value p q hval hp hq hpq
+
+/-- … and the cell stays a `u16` -/
+theorem tb_set_fits_cell (v value p : Nat) (hv : v < 2 ^ RbV.Gen.TbCodes.cellBits) (hval : value ≤ RbV.Gen.TbCodes.tbMax)
+    (hp : p ∈ RbV.Gen.TbCodes.positions) : RbV.TbCell.setBits v p value < 2 ^ RbV.Gen.TbCodes.cellBits :=
+  GenTbCodes.tb_set_fits_cell v value p hv hval hp
+
+/-- `set_all(value)` (used for `TB_START` and the clip codes) makes all three matrices read `value` -/
+theorem tb_set_all (v value : Nat) (hval : value ≤ RbV.Gen.TbCodes.tbMax) :
+    RbV.TbCell.getBits (RbV.TbCell.setAll v value) RbV.Gen.TbCodes.iPos = value ∧
+      RbV.TbCell.getBits (RbV.TbCell.setAll v value) RbV.Gen.TbCodes.dPos = value ∧
+      RbV.TbCell.getBits (RbV.TbCell.setAll v value) RbV.Gen.TbCodes.sPos = value :=
+  GenTbCodes.tb_set_all v value hval
+
+-- non-vacuity (relative to the constants, so that a harmless change of value does not break them): the boundary
+-- penalty satisfies the hypotheses of `min_score_headroom`; a cell with S = MATCH, D = DEL reads back field by field
+example : -(2 ^ 31 : Int) - (minScore + minScore) ≤ -(2 ^ 31 : Int) - (minScore + minScore) ∧
+    -(2 ^ 31 : Int) - (minScore + minScore) ≤ 0 := by decide
+example : RbV.Gen.TbCodes.tbDel ≤ RbV.Gen.TbCodes.tbMax ∧ RbV.Gen.TbCodes.dPos ∈ RbV.Gen.TbCodes.positions ∧
+    RbV.Gen.TbCodes.sPos ∈ RbV.Gen.TbCodes.positions ∧ RbV.Gen.TbCodes.dPos ≠ RbV.Gen.TbCodes.sPos := by decide
+example : RbV.TbCell.getBits (RbV.TbCell.setBits (RbV.TbCell.setBits 0 RbV.Gen.TbCodes.sPos RbV.Gen.TbCodes.tbMatch)
+    RbV.Gen.TbCodes.dPos RbV.Gen.TbCodes.tbDel) RbV.Gen.TbCodes.sPos = RbV.Gen.TbCodes.tbMatch := by decide
 
 -- non-vacuity: M I I D on (ACC, AG) scores 1 − 7 − 6 = −12 forwards and backwards (D I I M on (CCA, GA))
 example : score scU' .none [0, 1, 1] [0, 2] [.mat, .ins, .ins, .del] = some (-12) := by decide +kernel
